@@ -132,11 +132,12 @@ theorem c13_fate_partition (cfg : Cfg) (ops : List Op) :
     s.emLogged = s.gEmDropped.length ∧ s.expiredRet = s.gExpired.length := by
   intro s
   have h : Acct s := run_acct cfg ops init init_acct
+  have hpend : s.gPending = [] := run_pending cfg ops init
   have hperm : s.fates.Perm s.items := by
     rw [List.perm_iff_count]
     intro it
     have := h.occ_eq it
-    simp only [State.fates, List.count_append, occ] at this ⊢
+    simp only [State.fates, List.count_append, occ, hpend, List.map_nil, List.count_nil] at this ⊢
     omega
   have hnd : s.items.Nodup := by
     have : (s.items.map (·.seq)).Nodup := by rw [h.seqs]; exact List.nodup_range
@@ -156,6 +157,44 @@ theorem c13_conservation (cfg : Cfg) (ops : List Op) :
   simp only [State.fates, List.length_append] at this
   simp only [State.ingested]
   omega
+
+/-- The same for several threads at the level of atomic actions (whole `ingest`/`autophagy` calls under the lock,
+    `digest` split into its locked pop and one loop iteration per popped item, interleaved arbitrarily among any
+    number of threads): at every moment each ingested item is in exactly one of the five places or pending in
+    exactly one running digest call, the counters are the sizes of the places — and whenever no digest call is in
+    flight (quiescence) the sequential statement holds verbatim. -/
+theorem c13_fate_partition_concurrent (cfg : Cfg) (acts : List Act) :
+    let s := runActs cfg init acts
+    (s.fates ++ s.gPending.map (·.2)).Perm s.items ∧ (s.fates ++ s.gPending.map (·.2)).Nodup ∧
+    s.digested = s.gDigested.length ∧ s.reported + s.autoLogged = s.gErrored.length ∧
+    s.emLogged = s.gEmDropped.length ∧ s.expiredRet = s.gExpired.length ∧
+    (s.gPending = [] → s.fates.Perm s.items ∧ s.fates.Nodup ∧
+      s.ingested = s.queue.length + s.digested + (s.reported + s.autoLogged) + s.emLogged + s.expiredRet) := by
+  intro s
+  have h : Acct s := runActs_acct cfg acts init init_acct
+  have hperm : (s.fates ++ s.gPending.map (·.2)).Perm s.items := by
+    rw [List.perm_iff_count]
+    intro it
+    have := h.occ_eq it
+    simp only [State.fates, List.count_append, occ] at this ⊢
+    omega
+  have hnd : s.items.Nodup := by
+    have : (s.items.map (·.seq)).Nodup := by rw [h.seqs]; exact List.nodup_range
+    exact List.Pairwise.of_map (·.seq) (fun a b hab e => hab (by rw [e])) this
+  refine ⟨hperm, hperm.nodup_iff.mpr hnd, h.dig, h.err, h.em, h.exp, ?_⟩
+  intro hq
+  have hperm' : s.fates.Perm s.items := by simpa [hq] using hperm
+  refine ⟨hperm', hperm'.nodup_iff.mpr hnd, ?_⟩
+  have := hperm'.length_eq
+  have := h.dig; have := h.err; have := h.em; have := h.exp
+  simp only [State.fates, List.length_append] at *
+  simp only [State.ingested]
+  omega
+
+/-- … the queue bound, … -/
+theorem c13_queue_bounded_concurrent (cfg : Cfg) (h2 : 2 ≤ cfg.maxQ) (acts : List Act) :
+    (runActs cfg init acts).queue.length ≤ cfg.maxQ :=
+  runActs_queue_bound cfg h2 acts init (by simp [init])
 
 /-! ### sensitive items -/
 
@@ -195,6 +234,35 @@ theorem c13_toxic_callback_exactly_once_when_processed (cfg : Cfg) (f : Item →
   have h0 := ht it
   by_cases hty : it.ty = .toxic
   · by_cases hm : it ∈ (run cfg init ops).gDigested ++ (run cfg init ops).gErrored ++ (run cfg init ops).gEmDropped
+    · have hpos := List.count_pos_iff.mpr hm
+      simp only [List.count_append] at hpos
+      simp only [hty, hm, and_self, if_true] at h0 ⊢
+      omega
+    · have hz := List.count_eq_zero.mpr hm
+      simp only [List.count_append] at hz
+      simp only [hty, hm, and_false, if_false, if_true] at h0 ⊢
+      omega
+  · simpa [hty] using h0
+
+/-- Both toxic clauses for several threads (atomic actions as in `c13_fate_partition_concurrent`): no bin entry
+    from a sensitive item; the callback has run exactly once for every sensitive item that has been processed and
+    never for any other (queued, expired, pending, or not sensitive). -/
+theorem c13_toxic_concurrent (cfg : Cfg) (f : Item → Bool) (htd : cfg.toxDig = none) (hot : cfg.onToxic = some f)
+    (acts : List Act) :
+    (∀ kv ∈ (runActs cfg init acts).bin, kv.2.ty ≠ .toxic) ∧
+    ∀ it, (runActs cfg init acts).toxicLog.count it =
+      if it.ty = .toxic ∧ it ∈ (runActs cfg init acts).gDigested ++ (runActs cfg init acts).gErrored ++
+        (runActs cfg init acts).gEmDropped then 1 else 0 := by
+  refine ⟨runActs_bin htd acts init (by intro kv h; simp [init] at h), ?_⟩
+  intro it
+  have ht : ToxInv (runActs cfg init acts) := runActs_tox htd hot acts init (by intro it; simp [init])
+  obtain ⟨_, hnd, _⟩ := c13_fate_partition_concurrent cfg acts
+  have hle := (List.nodup_iff_count.mp hnd) it
+  simp only [State.fates, List.count_append] at hle
+  have h0 := ht it
+  by_cases hty : it.ty = .toxic
+  · by_cases hm : it ∈ (runActs cfg init acts).gDigested ++ (runActs cfg init acts).gErrored ++
+        (runActs cfg init acts).gEmDropped
     · have hpos := List.count_pos_iff.mpr hm
       simp only [List.count_append] at hpos
       simp only [hty, hm, and_self, if_true] at h0 ⊢
@@ -246,5 +314,14 @@ example : CallsProg methods tableMethods [.acq, .acq, .rel, .rel] := by
   exact Path.acq (Path.callSkip (Path.callTake hauto (Path.rel Path.nil)))
 
 example : reentOf lockKind = some true := by decide
+
+/-- two digest calls in flight at once (threads 1 and 2 popped one item each, thread 2's iteration runs first, an
+    ingest with emergency digest happens in between): not quiescent in the middle, quiescent and balanced at the end -/
+example :
+    let mid := runActs cfgEx init [.op (.ingest 1 .expired 1), .op (.ingest 2 .toxic 1), .pop 1 (some 1), .pop 2 (some 1)]
+    let fin := runActs cfgEx mid [.iter 2, .op (.ingest 3 .expired 0), .iter 1]
+    mid.gPending.map (fun p => (p.1, p.2.id)) = [(1, 1), (2, 2)] ∧ mid.queue = [] ∧
+    fin.gPending = [] ∧ fin.gDigested.map (·.id) = [2, 1] ∧ fin.toxicLog.map (·.id) = [2] ∧
+    fin.queue.map (·.id) = [3] := by decide
 
 end Operon.Lysosome
